@@ -130,6 +130,8 @@ func (a *c30Action) Execute(ctx context.Context, _ chain.Rules, mu state.Mutable
 				out = append(out, 0)
 			} else if err != nil {
 				return nil, err
+			} else if len(v) == 0 {
+				out = append(out, 2) // present with the empty value
 			} else {
 				out = append(out, 1, v[0])
 			}
@@ -152,7 +154,11 @@ func (a *c30Action) Execute(ctx context.Context, _ chain.Rules, mu state.Mutable
 			nv := op.val
 			v, err := mu.GetValue(ctx, k)
 			if err == nil {
-				nv = v[0] + 1
+				if len(v) > 0 {
+					nv = v[0] + 1
+				} else {
+					nv = 0x77
+				}
 			} else if !errors.Is(err, database.ErrNotFound) {
 				return nil, err
 			}
@@ -311,11 +317,14 @@ func VerifC30Actions() {
 	maxActions := verifParam("maxActions", 2, 3)
 	opsSingle := verifParam("opsPerActionInSingleActionLists", 1, 2)
 	actor := codec.Address{1, 2, 3}
-	// state: every script key absent or present with any value; the sponsor balance is ample
+	// state: every script key absent, present with any one-byte value, or present with the empty value; the sponsor balance is ample
 	st := map[string][]byte{string(c30BalKey(actor)): binary.BigEndian.AppendUint64(nil, 1<<50)}
 	for i := 0; i < nkeys; i++ {
-		if verifChoose("present", 2) == 1 {
+		switch verifChoose("present", 3) {
+		case 1:
 			st[string(c30Key(byte(i)))] = []byte{verifU8("value")}
+		case 2:
+			st[string(c30Key(byte(i)))] = []byte{} // present with the empty value: a legal state, distinct from absence
 		}
 	}
 	// action list
